@@ -166,7 +166,9 @@ loop:
 			switch dm.state {
 			case dsDeployActive:
 				if result != nil {
-					break loop
+					// remove whatever the failed deploy left behind before giving up the lease
+					runch = dm.startTeardown()
+					break
 				}
 				dm.log.Debug("deploy complete")
 				dm.state = dsDeployComplete
@@ -174,7 +176,8 @@ loop:
 				dm.startWithdrawal()
 			case dsDeployPending:
 				if result != nil {
-					break loop
+					runch = dm.startTeardown()
+					break
 				}
 				// start update
 				runch = dm.startDeploy()
